@@ -88,15 +88,17 @@ def str_method(x, st, recv, name, pos, kw, node, chain):
         return [(st, r)]
     if name == "rfind" and pos:
         t = strarg()
-        r = fresh("int", "rfind")
         L = z3.Length(s)
-        st.pc.append(z3.And(r.t >= -1, r.t <= L))
         if t is not None and len(pos) == 1:
+            return [(st, vint(z3.LastIndexOf(s, t)))]
+        r = fresh("int", "rfind")
+        st.pc.append(z3.And(r.t >= -1, r.t <= L))
+        if t is not None and len(pos) == 2 and pos[1].k == "int":
+            # s.rfind(t, start): start <= 0 (after clamping) searches the whole string
+            o = pos[1].t
+            st.pc.append(z3.Implies(z3.Or(o == 0, o <= -L), r.t == z3.LastIndexOf(s, t)))
             st.pc.append(z3.Implies(r.t >= 0, z3.And(r.t + z3.Length(t) <= L,
                                                       z3.SubString(s, r.t, z3.Length(t)) == t)))
-            st.pc.append((r.t == -1) == z3.Not(z3.Contains(s, t)))
-            # last occurrence
-            st.pc.append(z3.Implies(r.t >= 0, z3.LastIndexOf(s, t) == r.t))
         return [(st, r)]
     if name == "index" and pos:
         t = strarg()
